@@ -485,6 +485,13 @@ def rec_consumer_templates(draw, tier):
     ln = draw(st.integers(1, 3))
     nodes = [N('n0', mode=draw(st.sampled_from(['coro', 'inline', 'gated'])))]
     start_is_input = draw(st.integers(0, 3)) == 0
+    side = None
+    if draw(st.booleans()):
+        # a side input: outside the subgraph (neither reachable from the start nor an ancestor of it), consumed by a
+        # member of the subgraph - it must not be re-executed by the iterations
+        side = f'n{len(nodes)}'
+        nodes.append(N(side, [('k0', ['in', 'n0'])] if not start_is_input and draw(st.booleans()) else [],
+                       mode=draw(ext)))
     prev = 'n0'
     chain = ['n0'] if start_is_input else []
     for i in range(ln):
@@ -493,6 +500,11 @@ def rec_consumer_templates(draw, tier):
         chain.append(nid)
         prev = nid
     S.node_index({'nodes': nodes})[chain[0]]['additional_data'] = True
+    if side is not None:
+        members = [c for c in chain if c != 'n0']
+        if members:
+            tgt = S.node_index({'nodes': nodes})[draw(st.sampled_from(members))]
+            tgt['params'].append([f'k{len(tgt["params"])}', ['in', side]])
     dest = chain[-1]
     S.node_index({'nodes': nodes})[dest]['rec_dest'] = True
     if draw(st.booleans()):
